@@ -324,9 +324,9 @@ func (l *loader) FindHandlerByType(string) (string, any, error) {
 	return "", nil, blobserver.ErrHandlerTypeNotFound
 }
 func (l *loader) AllHandlers() (map[string]string, map[string]any) { return nil, nil }
-func (l *loader) MyPrefix() string                                  { return "/verif/" }
-func (l *loader) BaseURL() string                                   { return "http://localhost:1" }
-func (l *loader) GetHandlerType(string) string                      { return "" }
+func (l *loader) MyPrefix() string                                 { return "/verif/" }
+func (l *loader) BaseURL() string                                  { return "http://localhost:1" }
+func (l *loader) GetHandlerType(string) string                     { return "" }
 func (l *loader) GetHandler(p string) (any, error) {
 	if s, ok := l.pref[p]; ok {
 		return s, nil
